@@ -14,7 +14,8 @@ EXTENDS Integers, FiniteSets, Sequences, TLC, Json
 CONSTANTS MaxCap, MaxSlotVer, MaxArchVer, Wrapping, DebugAsserts,
           InitCaps,      \* set of initial capacities
           Pinned,        \* TRUE: pre-fix destroy order (reproduces defect D1)
-          Edges          \* TRUE: print transitions
+          Edges,         \* TRUE: print state-changing transitions (for the transition tour)
+          TrackDirect    \* TRUE: explore to_direct minting (ghost `directs`); FALSE for edge export
 
 S == INSTANCE Storage
 
@@ -83,10 +84,8 @@ CreateWithin ==
 \* destroy by an entity handle (any value of the universe) or a direct handle
 DestroyAt(op, arg, r, hkey) ==
     \* r: resolution result (-1 none, -2 debug panic, else dense index)
-    IF r = -1 THEN /\ UNCHANGED <<st, issued, live, rmc, directs, bad>>
-                   /\ Edge(op, arg, <<"none">>, st)
-    ELSE IF r = -2 THEN /\ UNCHANGED <<st, issued, live, rmc, directs, bad>>
-                        /\ Edge(op, arg, <<"panic_debug">>, st)
+    IF r = -1 THEN UNCHANGED <<st, issued, live, rmc, directs, bad>>      \* misses are covered by probes
+    ELSE IF r = -2 THEN UNCHANGED <<st, issued, live, rmc, directs, bad>>
     ELSE LET p == st.dpos[r]
              h == <<p, st.dver[r]>>
          IN IF S!DestroyPanics(st, p)
@@ -106,12 +105,12 @@ DestroyDirect == \E d \in DirectU : DestroyAt("destroy_direct", <<d[1], d[2]>>, 
 
 \* to_direct(h): mint a direct handle for a handle of the universe
 ToDirect ==
-    \E h \in HandleU :
+    /\ TrackDirect
+    /\ \E h \in HandleU :
         LET r == S!ResolveEntity(st, h[1], h[2]) IN
         /\ r >= 0
         /\ directs' = {[i |-> r, av |-> st.aver, h |-> <<st.dpos[r], st.dver[r]>>, born |-> rmc]}
         /\ UNCHANGED <<st, issued, live, rmc, bad>>
-        /\ Edge("to_direct", <<h[1], h[2]>>, <<"some", r, st.aver>>, st)
 
 Next == Create \/ CreateWithin \/ Destroy \/ DestroyDirect \/ ToDirect
 
